@@ -200,3 +200,41 @@ Proof.
   - rewrite (meets_verb _ _ _ M), (meets_verb _ _ _ M'). reflexivity.
   - rewrite (meets_resp _ _ _ M), (meets_resp _ _ _ M'). reflexivity.
 Qed.
+
+(* ------------------------------------------------------------------ the source-image stage, through C05 *)
+(* "the compiled output can be turned into a source image without error": the image is built by printing every
+   compiled file (PrintFile) and compiling the text again (ReadFSImage -> protocompile).  With the file model of
+   C05 (model/ProtoPrintFile.v, model/ProtoParseFile.v) this stage is parse_file_tokens (print_file_tokens D):
+   for every well-formed compiled descriptor it succeeds, and every element of the file — in particular every
+   service with its methods, input / output types and options (google.api.http), every message with its fields
+   and json names — has an equivalent element in the descriptor read back, and vice versa. *)
+From J5V.model Require ProtoPrint ProtoPrintFile ProtoParseFile.
+From J5V.proofs Require ProtoPrintFileFullProofs.
+
+Section ImageStage.
+Import ProtoPrint ProtoPrintFile ProtoParseFile ProtoPrintFileFullProofs.
+
+Lemma perm_equiv_covers {A} (R : A -> A -> Prop) l l' : perm_equiv R l l' ->
+  (forall x, In x l -> exists y, In y l' /\ R x y) /\ (forall y, In y l' -> exists x, In x l /\ R x y).
+Proof.
+  intros (m & Hp & Hf). split.
+  - intros x Hx. apply (Permutation_in _ Hp) in Hx. clear Hp. induction Hf as [|a b m l2 Hab Hf IH]; [destruct Hx|].
+    destruct Hx as [<-|Hx]; [exists b; split; [left; reflexivity|exact Hab]|].
+    destruct (IH Hx) as (y & Hy & Hr). exists y. split; [right; exact Hy|exact Hr].
+  - intros y Hy. assert (H : exists x, In x m /\ R x y).
+    { clear Hp. induction Hf as [|a b m l2 Hab Hf IH]; [destruct Hy|].
+      destruct Hy as [<-|Hy]; [exists a; split; [left; reflexivity|exact Hab]|].
+      destruct (IH Hy) as (x & Hx & Hr). exists x. split; [right; exact Hx|exact Hr]. }
+    destruct H as (x & Hx & Hr). exists x. split; [|exact Hr]. apply (Permutation_in _ (Permutation_sym Hp)). exact Hx.
+Qed.
+
+Theorem image_stage imp D : wf_dfile imp D ->
+  exists D', parse_file_tokens imp (print_file_tokens (to_symtab (dfile_symtab imp D)) D) = Some D'
+    /\ d_pkg D' = d_pkg D
+    /\ (forall e, In e (d_body D) -> exists e', In e' (d_body D') /\ elem_equiv e e')
+    /\ (forall e', In e' (d_body D') -> exists e, In e (d_body D) /\ elem_equiv e e').
+Proof.
+  intro Hw. destruct (token_roundtrip imp D Hw) as (D' & Hp & He & _ & _). exists D'. split; [exact Hp|].
+  destruct He as (Hpk & _ & _ & _ & Hb). split; [symmetry; exact Hpk|]. exact (perm_equiv_covers elem_equiv _ _ Hb).
+Qed.
+End ImageStage.
